@@ -92,6 +92,13 @@ def gen_cases(rng: Rng, tier):
     n_cases = dict(quick=64, thorough=800)[tier]
     mk_kinds = ["random", "random", "heavy", "ends", "onefull", "none", "none"]
     for k in range(n_cases):
+        if k % 32 == 5:
+            # a large grid: the size-dependent branches (binned mean above 2000 samples) must not depend on the encoding
+            sub = rng.choice(["straddle", "straddle", "above", "below"])
+            m = dict(straddle=rng.randint(175, 230), above=rng.randint(260, 300), below=rng.randint(100, 150))[sub]
+            yield dict(kind="big", seed=rng.subseed(), n=12, m=m, keep=rs(dict(straddle=Fraction(7, 10), above=Fraction(9, 10), below=Fraction(7, 10))[sub]),
+                       bw=rs(rng.choice([Fraction(1, 8), Fraction(1, 4)])), sub=sub)
+            continue
         if k % 15 == 13:
             yield dict(kind="sparsify", seed=rng.subseed(), n=rng.randint(2, 8), m=rng.randint(5, 12),
                        perc=rs(rng.choice([Fraction(1, 2), Fraction(3, 4), Fraction(9, 10)])), bw=rs(rng.choice([Fraction(1, 2), Fraction(1, 4)])))
@@ -253,9 +260,19 @@ def _ops(fd, case, irregular=True):
     with _Capture() as cap:
         _try(out, "smooth_ps", lambda: _vals(fd.smooth(method="PS", penalty=pen, **pskw)))
         out["ps_fits"] = cap.ps[:]
+    # non-default evaluation points (inside the data range, not grid points)
+    from FDApy.representation.argvals import DenseArgvals
+
+    tt = np.array(fl([F(x) for x in case["t"]]))
+    pts = DenseArgvals({"input_dim_0": np.concatenate([(tt[:-1] + tt[1:]) / 2, tt[-1:]])})
+    _try(out, "smooth_lp_pts", lambda: _vals(fd.smooth(points=pts, method="LP", bandwidth=bw, **lpkw)))
+    _try(out, "smooth_ps_pts", lambda: _vals(fd.smooth(points=pts, method="PS", penalty=pen, **pskw)))
+    _try(out, "mean_lp_pts", lambda: _vals(fd.mean(points=pts, method_smoothing="LP", bandwidth=bw)))
     if irregular:
         _try(out, "smooth_interp", lambda: _vals(fd.smooth(method="interpolation")))
+        _try(out, "smooth_interp_pts", lambda: _vals(fd.smooth(points=pts, method="interpolation")))
         _try(out, "smooth_lp_default", lambda: _vals(fd.smooth(method="LP")))
+        _try(out, "tb_grid", lambda: _vals(fd.to_basis(penalty=pen, **pskw).to_grid()))
     _try(out, "smooth_ps_default", lambda: _vals(fd.smooth()))
     _try(out, "mean_lp", lambda: _vals(fd.mean(method_smoothing="LP", bandwidth=bw, **lpkw)))
     _try(out, "mean_lp_plain", lambda: _vals(fd.mean(method_smoothing="LP", bandwidth=bw)))
@@ -267,6 +284,8 @@ def _ops(fd, case, irregular=True):
         _try(out, "mean_default", lambda: _vals(fd.mean()))
         _try(out, "center_default", lambda: cont(fd.center()))
     _try(out, "center_lp", lambda: cont(fd.center(method_smoothing="LP", bandwidth=bw)))
+    _try(out, "center_given", lambda: cont(fd.center(mean=fd.mean(method_smoothing="LP", bandwidth=bw), method_smoothing="LP", bandwidth=bw)))
+    _try(out, "nsq_stand", lambda: np.asarray(fd.norm(squared=True, use_argvals_stand=True), dtype=float).tolist())
     _try(out, "nsq", lambda: np.asarray(fd.norm(squared=True), dtype=float).tolist())
     _try(out, "norm", lambda: np.asarray(fd.norm(), dtype=float).tolist())
     _try(out, "nsq_simpson", lambda: np.asarray(fd.norm(squared=True, method_integration="simpson"), dtype=float).tolist())
@@ -278,6 +297,7 @@ def _ops(fd, case, irregular=True):
         _try(out, "cov_lp", lambda: _vals(fd.covariance(method_smoothing="LP", bandwidth=bw, kwargs_center=dict(bandwidth=bw)))[0])
         _try(out, "cov_default", lambda: _vals(fd.covariance())[0])
         _try(out, "gram_lp", lambda: np.asarray(fd.inner_product(noise_variance=0, method_smoothing="LP", bandwidth=bw), dtype=float).tolist())
+        _try(out, "gram_lp_s2", lambda: np.asarray(fd.inner_product(noise_variance=0.25, method_smoothing="LP", bandwidth=bw), dtype=float).tolist())
         _try(out, "gram_lp_nv", lambda: np.asarray(fd.inner_product(method_smoothing="LP", bandwidth=bw), dtype=float).tolist())
         _try(out, "gram_default", lambda: np.asarray(fd.inner_product(), dtype=float).tolist())
         _try(out, "rescale_lp", lambda: float(fd.rescale(method_smoothing="LP", bandwidth=bw)[1]))
@@ -288,6 +308,7 @@ def _ops(fd, case, irregular=True):
         _try(out, "cov_raw_nc", lambda: _vals(fd.covariance(center=False))[0])
         _try(out, "cov_lp", lambda: _vals(fd.covariance(method_smoothing="LP", bandwidth=bw, kwargs_center=dict(bandwidth=bw)))[0])
         _try(out, "gram_none", lambda: np.asarray(fd.inner_product(noise_variance=0), dtype=float).tolist())
+        _try(out, "gram_none_s2", lambda: np.asarray(fd.inner_product(noise_variance=0.25), dtype=float).tolist())
         _try(out, "gram_lp", lambda: np.asarray(fd.inner_product(noise_variance=0, method_smoothing="LP", bandwidth=bw), dtype=float).tolist())
         _try(out, "to_basis", lambda: np.asarray(fd.to_basis(penalty=pen, **pskw).coefficients, dtype=float).tolist())
     # second call on the same object (state left by the calls above must not matter)
@@ -297,6 +318,7 @@ def _ops(fd, case, irregular=True):
     _try(out, "mul", lambda: cont(fd * a))
     _try(out, "rmul", lambda: cont(a * fd))
     _try(out, "addnum", lambda: cont(fd + a))
+    _try(out, "divnum", lambda: cont(fd / 4.0))
     return out
 
 
@@ -390,9 +412,40 @@ def _run_sparsify(case):
     return out
 
 
+def _run_big(case):
+    g = np.random.default_rng(case["seed"])
+    n, m = case["n"], case["m"]
+    t = np.linspace(0, 1, m)
+    V = np.round((np.sin(3 * t)[None, :] * g.normal(1, 0.3, size=(n, 1)) + g.normal(0, 0.2, size=(n, m))) * 64) / 64
+    keep = float(F(case["keep"]))
+    probs = np.clip(keep + g.uniform(-0.25, 0.25, size=n), 0.15, 1.0)  # unbalanced missingness
+    probs += keep - probs.mean()
+    M = (g.uniform(size=(n, m)) < np.clip(probs, 0.05, 1.0)[:, None])
+    M[:, 0] |= g.uniform(size=n) < 0.5
+    for i in range(n):
+        if M[i].sum() < 3:
+            M[i, :3] = True
+    for j in range(m):
+        if not M[:, j].any():
+            M[g.integers(n), j] = True
+    A, B, _ = _build(t, V, M.astype(int).tolist())
+    bw = float(F(case["bw"]))
+    out = dict(slots=int(n * m), observed=int(M.sum()))
+    for key, fd in (("nan", A), ("rag", B)):
+        o = {}
+        _try(o, "mean_lp", lambda: _vals(fd.mean(method_smoothing="LP", bandwidth=bw)))
+        _try(o, "center_lp", lambda: _content(fd.center(method_smoothing="LP", bandwidth=bw)))
+        _try(o, "noise", lambda: float(fd.noise_variance()))
+        _try(o, "to_long", lambda: _long(fd))
+        out[key] = o
+    return out
+
+
 def run_impl(case):
     if case["kind"] == "enc":
         return _run_enc(case)
+    if case["kind"] == "big":
+        return _run_big(case)
     return _run_sparsify(case)
 
 
@@ -588,9 +641,11 @@ ENTRY = {
     "rescale_ps": "rescale", "rescale_default": "rescale", "to_basis": "to_basis", "add": "arithmetic", "sub": "arithmetic",
     "mulfd": "arithmetic", "mul": "arithmetic", "rmul": "arithmetic", "addnum": "arithmetic", "to_dense": "to_dense",
     "mean_lp_again": "mean", "nsq_again": "norm", "noise_again": "noise_variance",
+    "smooth_lp_pts": "smooth", "smooth_ps_pts": "smooth", "smooth_interp_pts": "smooth", "mean_lp_pts": "mean",
+    "center_given": "center", "nsq_stand": "norm", "gram_lp_s2": "inner_product", "divnum": "arithmetic", "tb_grid": "to_basis",
 }
 DEFAULT_BW = {"smooth_lp_default", "mean_default", "center_default", "cov_default", "gram_default", "rescale_default"}
-ROWS = {"to_long", "center_lp", "center_default", "normalize", "add", "sub", "mulfd", "mul", "rmul", "addnum"}
+ROWS = {"to_long", "center_lp", "center_default", "center_given", "normalize", "add", "sub", "mulfd", "mul", "rmul", "addnum", "divnum"}
 
 
 def _flat(key, v):
@@ -681,6 +736,11 @@ def _oracle_enc(case, impl):
                     per.append(float(np.mean([np.dot(w, ys[k:k + len(w)]) ** 2 for k in range(len(ys) - len(w) + 1)])))
             if abs(nv - float(np.mean(per))) > 1e-9 * sc * sc:
                 bad("noise_variance_estimator", "noise", f"{e} encoding: {nv!r} is not the difference-based estimate {float(np.mean(per))!r} of the observed samples")
+    for e, o_ in (("NaN", A), ("ragged", B)):
+        tb, sp = o_.get("tb_grid"), o_.get("smooth_ps")
+        if isinstance(tb, list) and isinstance(sp, list):
+            if not np.allclose(np.array(tb), np.array(sp), rtol=0, atol=1e-6 * max(1.0, float(np.abs(np.array(sp)).max()))):
+                bad("to_basis_to_grid", "to_basis", f"{e} encoding: to_basis().to_grid() differs from smooth(method='PS') with the same settings")
     # second call on the same object
     for again, first in (("mean_lp_again", "mean_lp"), ("nsq_again", "nsq"), ("noise_again", "noise")):
         for e, o_ in (("NaN", A), ("ragged", B)):
@@ -701,7 +761,9 @@ def _oracle_enc(case, impl):
                  ("center_lp", "center_lp", 1.0), ("nsq", "nsq", 1.0), ("norm", "norm", 1.0), ("nsq_simpson", "nsq_simpson", 1.0),
                  ("normalize", "normalize", 1.0), ("noise", "noise", 1.0), ("cov_raw_nc", "cov_raw_nc", n / (n - 1)),
                  ("cov_lp", "cov_lp", n / (n - 1)), ("gram_lp", "gram_none", 1.0), ("gram_lp", "gram_lp", 1.0),
-                 ("add", "add", 1.0), ("mul", "mul", 1.0), ("to_basis", "to_basis", 1.0)]
+                 ("add", "add", 1.0), ("mul", "mul", 1.0), ("to_basis", "to_basis", 1.0), ("smooth_lp_pts", "smooth_lp_pts", 1.0),
+                 ("smooth_ps_pts", "smooth_ps_pts", 1.0), ("mean_lp_pts", "mean_lp_pts", 1.0), ("center_given", "center_given", 1.0),
+                 ("nsq_stand", "nsq_stand", 1.0), ("gram_lp_s2", "gram_none_s2", 1.0), ("divnum", "divnum", 1.0)]
         for ki, kd, fac in pairs:
             for e, o_ in (("NaN", A), ("ragged", B)):
                 if ki not in o_ or kd not in Dn:
@@ -766,9 +828,30 @@ def _oracle_sparsify(case, impl):
     return vs_
 
 
+def _oracle_big(case, impl):
+    vs_ = []
+    for key in ("mean_lp", "center_lp", "noise", "to_long"):
+        a, b = impl["nan"][key], impl["rag"][key]
+        entry = "IrregularFunctionalData." + ENTRY.get(key, key)
+        if isinstance(a, str) or isinstance(b, str):
+            if not (isinstance(a, str) and isinstance(b, str)):
+                vs_.append(dict(clause="encoding_independent", entry=entry, msg=f"large grid, {key}: {str(a)[:60]} vs {str(b)[:60]}"))
+            continue
+        fa, fb = _flat(key, a), _flat(key, b)
+        if not np.all(np.isfinite(fa)) or not np.all(np.isfinite(fb)):
+            vs_.append(dict(clause="no_nan", entry=entry, msg=f"large grid, {key}: non-finite result"))
+        elif fa.shape != fb.shape or not np.all(np.abs(fa - fb) <= 1e-7 * max(1.0, float(np.abs(fb).max()))):
+            d = float(np.abs(fa - fb).max()) if fa.shape == fb.shape else float("nan")
+            vs_.append(dict(clause="encoding_independent", entry=entry,
+                            msg=f"large grid ({impl['slots']} cells, {impl['observed']} observed), {key}: the two encodings differ: max |Δ| = {d:.3g}"))
+    return vs_
+
+
 def oracle(case, impl):
     if "__crash__" in impl:
         return [dict(clause="runs", entry=case["kind"], msg=f"crash {impl['__crash__']}: {impl.get('msg')} {impl.get('tb', '')[-300:]}")]
+    if case["kind"] == "big":
+        return _oracle_big(case, impl)
     if case["kind"] == "enc":
         return _oracle_enc(case, impl)
     return _oracle_sparsify(case, impl)
@@ -781,6 +864,8 @@ def nontrivial(case, impl):
 
 
 def classify(case, impl):
+    if case["kind"] == "big":
+        return ["kind:big", "big:" + case["sub"], "big-straddles-2000:" + str(impl.get("slots", 0) > 2000 >= impl.get("observed", 0))]
     if case["kind"] != "enc":
         return ["kind:sparsify", "sparsify-covered:" + str(impl.get("covered"))]
     M = np.array(case["M"])
